@@ -94,6 +94,9 @@ static void shape_cases() {
             }
         }
     }
+    for (int lam : {128, 80}) { Keys *K = nullptr; for (int32_t v : {2, 3, 4, -1, 0x80, 0x7fffffff, (int32_t)0x80000000}) { std::string key = fmt("shape/lambda=%d/CONSTANT/value=%d", lam, v); if (!take(key)) continue; if (deadline()) return; current(key);
+        if (!K) K = make_keys(lam, 5); LweSample *o = new_gate_bootstrapping_ciphertext(K->ps); bootsCONSTANT(o, v, K->ck); int got = bootsSymDecrypt(o, K->sk); LweSample *o2 = new_gate_bootstrapping_ciphertext(K->ps), *f = new_gate_bootstrapping_ciphertext(K->ps); bootsSymEncrypt(f, 1, K->sk); bootsXOR(o2, o, f, K->ck);
+        if (got != 1 || bootsSymDecrypt(o2, K->sk) != 0) violation(key, fmt("bootsCONSTANT(%d) (a true value) decrypts to %d, XOR with an encryption of 1 decrypts to %d", v, got, bootsSymDecrypt(o2, K->sk))); eval(1); nontrivial(1); outcome(mix(0xC0, (uint32_t)v)); } }
     sample("shape/lambda=128/MUX/row=5/result=input2: bootsMUX(c, a, b, c) with fresh a=1, b=0, c=1 decrypts to MUX(1,0,1)=0");
     sample("shape/lambda=80/XOR/row=1/variance-field=0: fresh inputs whose current_variance field was set to 0 (as after a raw copy of a[], b)");
 }
